@@ -37,9 +37,30 @@ package macat
 //@
 //@ func (*App).sendRecvLoop
 //@   before call:SendMsg#1 assert eqseq(msg.Body, a.sendData) && len(msg.Header) == 0
+//@   at call:SendMsg#1 set nsent = nsent + 1
+//@   before call:printMsg#1 assert arg0 == msg && isnil(err)
+//@   before call:Free#1 assert called_since("call:RecvMsg#1", "printMsg")
+//@   before call:recvLoop#1 assert nsent == 1 && a.sendInterval < 0
+//@   loop 1 invariant a.sendInterval == old(a.sendInterval)
+//@   at call:SendMsg#1 assume a.sendInterval == old(a.sendInterval)
+//@   at call:SetOption#1 assume a.sendInterval == old(a.sendInterval)
+//@   at call:RecvMsg#1 assume a.sendInterval == old(a.sendInterval)
+//@   at call:printMsg#1 assume a.sendInterval == old(a.sendInterval)
+//@   at call:Free#1 assume a.sendInterval == old(a.sendInterval)
+//@   loop 1 invariant a.sendInterval < 0 ==> nsent == 0
+//@   loop 1 invariant old(a.count) >= 0 ==> count >= 0 && nsent == old(a.count) - count
+//@   ensures isnil(result) && old(a.count) >= 0 && old(a.sendInterval) >= 0 ==> nsent == old(a.count)
 //@
 //@ func (*App).replyLoop
 //@   before call:SendMsg#1 assert eqseq(msg.Body, a.sendData) && len(msg.Header) == 0
+//@   at call:RecvMsg#1 set nrecv = nrecv + 1
+//@   at call:printMsg#1 set nprint = nprint + 1
+//@   at call:SendMsg#1 set nsent = nsent + 1
+//@   before call:printMsg#1 assert arg0 == msg && isnil(err) && nprint == nrecv - 1
+//@   before call:Free#1 assert called_since("call:RecvMsg#1", "printMsg")
+//@   before call:SendMsg#1 assert nsent == nrecv - 1 && nprint == nrecv
+//@   before call:recvLoop#1 assert a.sendData == nil
+//@   loop 1 invariant nprint == nrecv && nsent == nrecv
 //@
 //@ func (*App).getOptions$14
 //@   ensures a.countSet
